@@ -1059,6 +1059,82 @@ COLUMNS_GEN = open(os.path.join(os.path.dirname(os.path.abspath(__file__)), 'tem
 
 
 
+# ----------------------------------------------------------------------------------------------------
+# 6. the evaluate() bodies of the dataset-wide edges (whole-body patterns, progress bars stripped)
+# ----------------------------------------------------------------------------------------------------
+REL_WANT = [
+    ('layers/filter.py', 'FilterEdge', '_evaluate', 'keys,=inputs\nreturntuple([keyforkeyinkeysifself.graph(key)])'),
+    ('layers/filter.py', None, '_among', 'returnidinids'),
+    ('layers/filter.py', None, '_not_among', 'returnidnotinids'),
+    ('layers/check_ids.py', 'CheckIdsEdge', '_evaluate', "id_,ids=inputs\nifid_inids:\nreturnid_\nraiseKeyError(f'{id_}isnotinids')"),
+    ('layers/group.py', 'GroupMapping', 'evaluate',
+     'keys=(yield(Command.ParentValue,0))\nmapping=defaultdict(set)\nforkeyinkeys:\nnew=self.graph(key)\n'
+     'assertkeynotinmapping[new],(key,mapping[new])\nmapping[new].add(key)\nreturndict(mapping)'),
+    ('layers/group.py', 'GroupEdge', '_evaluate',
+     "new_key,mapping=inputs\nifnew_keynotinmapping:\nraiseKeyError(f'Thekey{new_key}isnotfound')\n"
+     "return{old_key:self.graph(old_key)forold_keyinsorted(mapping[new_key])}"),
+    ('layers/group.py', None, '_sorted_keys', 'returntuple(sorted(mapping))'),
+    ('layers/join.py', 'JoinMapping', 'evaluate',
+     'left_keys,right_keys=(yield(Command.Await,(Command.ParentValue,0),(Command.ParentValue,1)))\n'
+     'precomputed_left,precomputed_right=(defaultdict(list),defaultdict(list))\nreverse_left,reverse_right=({},{})\n'
+     'foriinleft_keys:\nkey=reverse_func(self.to_key,self.left(i),reverse_left)\nprecomputed_left[key].append(i)\n'
+     'foriinright_keys:\nkey=reverse_func(self.to_key,self.right(i),reverse_right)\nprecomputed_right[key].append(i)\n'
+     'left,right=(set(precomputed_left),set(precomputed_right))\ncommon=left&right\nmapping={}\nforkeyincommon:\n'
+     'fori,jinitertools.product(precomputed_left[key],precomputed_right[key]):\nmapping[key]=(i,j)\n'
+     'return(mapping,slice_dict(precomputed_left,left-common),slice_dict(precomputed_right,right-common))'),
+    ('layers/join.py', None, 'reverse_func',
+     "value=func(arg)\nifvalueinmapping:\nraiseValueError(f'Theprovidedkeyfunctionisnotreversible:value{value}alreadypresentfor{mapping[value]}')\n"
+     "mapping[value]=arg\nreturnvalue"),
+    ('layers/join.py', None, 'slice_dict',
+     'forkinkeys:\nvs=d[k]\niflen(vs)>1:\nraiseValueError(f\'Multipleids{tuple(vs)}weremappedtothesamekey"{k}"\')\nyield(k,vs[0])'),
+    ('layers/split.py', 'SplitMapping', 'evaluate',
+     'keys=(yield(Command.ParentValue,0))\nmapping={}\nforkeyinkeys:\nfornew,partinself.graph(key):\nassertnewnotinmapping,new\n'
+     'mapping[new]=(key,part)\nreturnmapping'),
+]
+
+
+def gen_relational(repo, report):
+    cache = {}
+    for rel, cls, fname, want in REL_WANT:
+        path = os.path.join(repo, 'connectome', rel)
+        if path not in cache:
+            cache[path] = parse(path)
+        src, tree = cache[path]
+        scope = tree.body
+        if cls is not None:
+            c = find_class(tree, cls)
+            if c is None:
+                fail(path, tree, f'class {cls} not found')
+            scope = c.body
+        fn = find_func(scope, fname)
+        if fn is None:
+            fail(path, tree, f'{cls + "." if cls else ""}{fname} not found')
+        report['kernels'].append({'kernel': f'{cls + "." if cls else ""}{fname}', 'file': rel, 'line': fn.lineno, 'sha256_16': sha(src, fn)})
+        stripped = _StripProgress().visit(ast.parse(ast.unparse(fn)).body[0])
+        if norm(stripped.body) != want:
+            fail(path, fn, f'{cls + "." if cls else ""}{fname} changed')
+    # Merge.__init__: the id table; Filter.keep / drop: what the predicate closes over
+    path = os.path.join(repo, 'connectome', 'layers/merge.py')
+    src, tree = parse(path)
+    init = find_func(find_class(tree, 'Merge').body, '__init__')
+    report['kernels'].append({'kernel': 'Merge.__init__', 'file': 'layers/merge.py', 'line': init.lineno, 'sha256_16': sha(src, init)})
+    ni = norm(init.body)
+    for piece in ('id_to_dataset={}\nforindex,datasetinenumerate(layers):\nkeys=getattr(dataset,ids_name)\nintersection=set(keys)&set(id_to_dataset)\n'
+                  "ifintersection:\nraiseRuntimeError(f'Ids{intersection}areduplicatedinmergeddatasets.')\nid_to_dataset.update({i:indexforiinkeys})",):
+        if piece not in ni:
+            fail(path, init, 'the id table of Merge.__init__ changed')
+    path = os.path.join(repo, 'connectome', 'layers/filter.py')
+    src, tree = parse(path)
+    fl = find_class(tree, 'Filter')
+    for name, pred in (('keep', '_among'), ('drop', '_not_among')):
+        fn = find_func(fl.body, name)
+        report['kernels'].append({'kernel': f'Filter.{name}', 'file': 'layers/filter.py', 'line': fn.lineno, 'sha256_16': sha(src, fn)})
+        nb = norm(fn.body)
+        if 'ids=tuple(sorted(set(ids)))' not in nb or f'returncls(partial({pred},ids),verbose=verbose)' not in nb:
+            fail(path, fn, f'Filter.{name} changed')
+    return open(os.path.join(os.path.dirname(os.path.abspath(__file__)), 'templates', 'RelGen.v')).read()
+
+
 def write_if_changed(path, text):
     if os.path.exists(path) and open(path).read() == text:
         return False
@@ -1081,7 +1157,7 @@ def main():
     report = {'kernels': [], 'failures': [], 'files': {}}
     ok = True
     for fname, fn in (('EdgesGen.v', gen_edges), ('NodeHashGen.v', gen_nodehash), ('AntiSetGen.v', gen_antiset),
-                      ('MiscGen.v', gen_misc), ('ColumnsGen.v', gen_columns)):
+                      ('MiscGen.v', gen_misc), ('ColumnsGen.v', gen_columns), ('RelGen.v', gen_relational)):
         try:
             text = fn(repo, report)
             changed = write_if_changed(os.path.join(outdir, fname), text)
